@@ -239,13 +239,14 @@ end
 
 /-! ## building a map (`Value::from_pairs` / a map literal with distinct keys) -/
 
-/-- `BTreeMap`: entries kept in key order; an entry with an `Equal` key is replaced -/
+/-- `BTreeMap::insert` (`Value::from_pairs` and a map literal insert their pairs one by one):
+    entries kept in key order; an entry whose key compares `Equal` keeps its key and gets the new value -/
 def insertB (k v : V) : List (V × V) → List (V × V)
   | [] => [(k, v)]
   | (k', v') :: ps =>
     match cmpV k k' with
     | .lt => (k, v) :: (k', v') :: ps
-    | .eq => (k, v) :: ps
+    | .eq => (k', v) :: ps
     | .gt => (k', v') :: insertB k v ps
 
 /-- `IndexMap::insert`: the value of an equal key is replaced in place, otherwise appended -/
@@ -285,9 +286,9 @@ def scanStr (s : List Nat) : List (V × V) → Option V
   | _ :: ps => scanStr s ps
 
 /-- `Object::get_value_by_str(key)` — what `m.key`, `Value::get_attr`, context variable resolution
-    and every `attribute=` filter use: a linear scan for maps of at most 12 entries, otherwise
+    and every `attribute=` filter use: a linear scan for maps of at most `valueMapStrScanMax` (regenerated from the source: 12) entries, otherwise
     `self.get(&Value::from(key))` -/
 def getByStr (m : Mode) (ps : List (V × V)) (s : List Nat) : Option V :=
-  if ps.length ≤ 12 then scanStr s ps else getV m ps (.str s)
+  if ps.length ≤ MJ.Gen.valueMapStrScanMax then scanStr s ps else getV m ps (.str s)
 
 end MJ.Cmp
